@@ -18,7 +18,8 @@ func TestC02(t *testing.T) {
 	gen := func(yield func(vt.Case)) {
 		for i, c := range allTLCCases(t) {
 			cc := fromTLC(c, counterFuncs[i%4], "xor")
-			cc["drift"] = !vt.Thorough() || i%4 == 0
+			cc["drift"] = i%vt.Pick(3, 8) == 0
+			cc["scripts"] = scripts(rnd, readReps(cc["reps"]), 2)
 			yield(cc)
 		}
 		n := vt.Pick(300, 4000)
@@ -49,8 +50,8 @@ func TestC02(t *testing.T) {
 			if nonEmpty(reps) && rnd.Intn(2) == 0 {
 				src = "list"
 			}
-			yield(vt.Case{"reps": repsJSON(reps), "ctr": true, "f": counterFuncs[rnd.Intn(4)], "src": src,
-				"targets": randomTargets(rnd, reps, 3), "drift": totalSamples(reps) <= 60 && (!vt.Thorough() || i%4 == 0), "gen": "rand"})
+			yield(vt.Case{"reps": repsJSON(reps), "ctr": true, "f": counterFuncs[rnd.Intn(4)], "src": src, "algo": "penalty",
+				"targets": randomTargets(rnd, reps, 3), "scripts": scripts(rnd, reps, 3), "drift": totalSamples(reps) <= 60 && (!vt.Thorough() || i%4 == 0), "gen": "rand"})
 		}
 	}
 	vt.Run(t, gen, func(vt.Case) string { return "" }, observe)
